@@ -409,6 +409,21 @@ def check_case(case, ctx):
                 # torch.autograd accumulating into the .grad fields that torchjd left behind is an ordinary user step
                 vio = ("grad_left_by_torchjd_cannot_be_used_by_the_caller", {"step": label, "operation": "torch.autograd.backward", "error": repr(e)[:300]})
                 break
+            # torch.autograd itself sometimes deposits ONE tensor (or views of one buffer) as the .grad of several leaves (both
+            # inputs of an un-broadcast a + b).  Every later in-place step on one of them, torchjd's `+=` included, then reaches
+            # the others as well: that aliasing is torch's, and per-leaf accumulation is only defined once the caller has given
+            # each leaf a gradient tensor of its own (`p.grad = p.grad.clone()`), which is what the history does here.  The
+            # deliberate case of one buffer shared by several requested tensors is the shard shared_grad_buffer (false alarm,
+            # thorough seed 16: leaf 0 and leaf 2 received the same scalar tensor, one backward added to it twice).
+            seen_storage = {}
+            for j2, l2 in enumerate(w.L):
+                if l2.grad is not None:
+                    seen_storage.setdefault(storage_key(l2.grad), []).append(j2)
+            for js in seen_storage.values():
+                if len(js) > 1:
+                    ctx.count("obs_torch_autograd_deposited_grads_sharing_one_storage")
+                    for j2 in js:
+                        w.L[j2].grad = w.L[j2].grad.detach().clone()
             for j in st["inputs"]:
                 shadow[j] = None if w.L[j].grad is None else w.L[j].grad.detach().clone()
                 hist_flags.add(("autograd", j))
